@@ -392,6 +392,27 @@ def execute(case):
                     v.add("C15:file-in-tree-vs-alone", "%s is formatted differently as a module of %s and on its own" % (f, inp["root"]), file=f)
                     break
             v.probe("each-file-alone")
+        # (h) line ranges (the option format-diff drives): ranges for the first input plus ranges for files that are
+        # not inputs of this invocation; results and diagnostics are the same under every hash seed
+        if n >= 2 and case["permseed"] % 5 == 0 and mode in ("stdout", "check"):
+            spans = [{"file": inputs[0]["root"], "range": [1, 3]}]
+            for k in range(1, n):
+                for f in inputs[k]["files"][:2]:
+                    spans.append({"file": f, "range": [1 + k, 4 + k]})
+            argvh = ["--color", "never"] + list(margs) + ["--unstable-features", "--file-lines", json.dumps(spans), inputs[0]["root"]]
+            seen = None
+            for k in (0, 1, 2, 3):
+                sc.fresh_world(world)
+                rh = core.run_inv(sc, {"argv": argvh, "hashseed": (case["hashseed"] + k * 7919) & 0xFFFFFFFF})
+                v.account(rh, nontrivial=(k == 0))
+                cur = (rh.stdout, rh.stderr, rh.exit)
+                if seen is not None and cur != seen and b"rustc-ice" not in rh.stderr + seen[1]:
+                    what = "stdout" if cur[0] != seen[0] else "diagnostics" if cur[1] != seen[1] else "status"
+                    v.add("C15:hashseed-file-lines|%s" % what, "same --file-lines invocation, another hash seed: %s differ (%r vs %r); argv=%s" % (
+                        what, core.text_of(cur[1])[:160], core.text_of(seen[1])[:160], argvh))
+                    break
+                seen = seen or cur
+            v.probe("file-lines")
         # (c) hash seeds
         for k in (1, 2, 3):
             res, pf, muts, argv = run(list(perms[0]), seed=(case["hashseed"] * 31 + k * 104729) & 0xFFFFFFFF)
